@@ -115,6 +115,9 @@ Definition make_attrs (buf : str) (attrs : attrs_t) : str :=
                rpush (rpush (rpush (rpush (rpush b [32]) (escape_html (fst a))) [61; 34]) (escape_html (snd a))) [34])
             attrs buf.
 
+(* cr(): only push a line feed if the output is non-empty and does not end with one *)
+Definition at_line_start (buf : str) : bool := match buf with [] => true | c :: _ => c =? 10 end.
+
 Definition ser_event (xhtml : bool) (buf : str) (e : event) : str :=
   match e with
   | EOpen tag attrs => rpush (make_attrs (rpush (rpush buf [60]) tag) attrs) [62]
@@ -122,11 +125,7 @@ Definition ser_event (xhtml : bool) (buf : str) (e : event) : str :=
   | ESelfClose tag attrs =>
     let b := make_attrs (rpush (rpush buf [60]) tag) attrs in
     rpush (if xhtml then rpush b [32; 47] else b) [62]
-  | ECr => match buf with
-           | [] => buf
-           | 10 :: _ => buf
-           | _ => 10 :: buf
-           end
+  | ECr => if at_line_start buf then buf else 10 :: buf
   | EText s => rpush buf (escape_html s)
   | ERaw s => rpush buf s
   end.
